@@ -1238,6 +1238,13 @@ func (c Code) String() string {
 // defmacro calls and converts unquoted lists to functions.
 func (c Code) Compile() {
 	scope := NewScope()
+	// Definitions are evaluated ahead of the rest of the code. They belong to
+	// the package that is current at their place in the code so an in-package
+	// is followed as well. Once that is not possible, the package might be
+	// created by the code itself, the remaining definitions are left to be
+	// evaluated in order.
+	orig := CurrentPackage
+	ahead := true
 	for i, obj := range c {
 		list, ok := obj.(List)
 		if !ok || len(list) == 0 {
@@ -1260,9 +1267,18 @@ func (c Code) Compile() {
 			ParsePanic(scope, 0, "%s is not a function", tv)
 		}
 		switch strings.ToLower(string(sym)) {
+		case "in-package":
+			if ahead {
+				ahead = switchPackage(scope, list)
+			}
 		case "defun", "defmacro", "defvar", "defparameter", "defconstant":
-			c.predefine(scope, i, list)
+			if ahead {
+				c.predefine(scope, i, list)
+			}
 		}
+	}
+	if CurrentPackage != orig {
+		CLPkg.Set("*package*", orig)
 	}
 	// Now convert lists to functions.
 	for i, obj := range c {
@@ -1272,6 +1288,20 @@ func (c Code) Compile() {
 		}
 		c[i] = CompileList(list)
 	}
+}
+
+// switchPackage evaluates an in-package form and returns true if that worked.
+func switchPackage(scope *Scope, list List) (ok bool) {
+	defer func() {
+		if recover() != nil {
+			ok = false
+		}
+	}()
+	dup := make(List, len(list))
+	copy(dup, list)
+	_ = ListToFunc(scope, dup, 0).Eval(scope, 0)
+
+	return true
 }
 
 // predefine evaluates a definition ahead of the rest of the code. If that is
